@@ -35,6 +35,9 @@ def series():
   xs = [None, x1, rng.normal(100, 10, 30), base + np.arange(30) * 0.5 + rng.normal(0, 1, 30),
         x1 * (1 + 1e-7 * np.cos(np.arange(30))),          # within 1e-7 (relative) of series 1, not equal to it
         big, big + 3.0 * np.sin(np.arange(30))]           # two series on a 2e6 baseline that differ by a few units
+  short = base[:18] * 1.5 + rng.normal(0, 0.3, 18)        # a shorter pretest window (index 2 of ys; xs 7 and 8 go with it)
+  ys.append(short)
+  xs += [2 * base[:18] + rng.normal(0, 0.2, 18), rng.normal(50, 5, 18)]
   return xs, ys
 
 
@@ -143,6 +146,11 @@ def run(tier):
     for m in READS:
       hist.append([('x', a), ('r', m), ('x', b), ('r', m)])
       hist.append([('x', a), ('x', b), ('r', m)])
+  # the treatment series is replaced by one of another length (with control series of that length)
+  for m in READS:
+    hist.append([('x', 1), ('r', m), ('y', 2), ('x', 7), ('r', m)])
+    hist.append([('y', 2), ('x', 7), ('r', m), ('y', 0), ('x', 1), ('r', m)])
+    hist.append([('y', 2), ('x', 8), ('r', m), ('x', 7), ('r', m), ('y', 1), ('x', 2), ('r', m), ('y', 2), ('r', m)])
   for _ in range(400 if tier == 'quick' else 20000):
     n = rng.randint(4, 14)
     h = [rng.choice(wide) if rng.random() < 0.55 else ('r', rng.choice(READS)) for _ in range(n)]
@@ -178,7 +186,7 @@ def run(tier):
   if bad:
     ck.tie_broken('correspondence', 'staleness predicted by the model (regenerated tables) differs from the object on %d histories' % len(bad),
                   {'history': hist[sorted(bad)[0]]})
-  ck.cov['rule'] = ('alphabet: 4 control series incl. None (random histories also use 3 more: one within 1e-7 relative of another, two on a 2e6 baseline differing by a few units), 2 treatment series, 10 members read (corr, required_impact, pretestfit, '
+  ck.cov['rule'] = ('alphabet: 4 control series incl. None (random histories also use 3 more: one within 1e-7 relative of another, two on a 2e6 baseline differing by a few units), 2 treatment series (plus a shorter one in scripted length-change histories), 10 members read (corr, required_impact, pretestfit, '
                     'aatest, bbtest, dwtest, corr_test, tests_ok, tbrfit(xt, yt), estimate_required_impact(rho)); every history of '
                     'length <= %d ending in a read (exhaustive), the set/read/set/read pattern for every pair of members, and random '
                     'histories of length 5-15. non-trivial: at least one assignment and one read; distinct: the history' % maxlen)
